@@ -104,6 +104,19 @@ theorem C12_height_order (cfg : Cfg) (last : Nat) (ops : List Op) :
   refine ⟨hflat, fun sub hm => ?_⟩
   exact List.Pairwise.sublist (List.Sublist.map _ (metadata_sublist r.emitted sub hm)) hflat
 
+/-- The same, stated on the stream the loop is offered: if the blocks arriving on the channel
+    have strictly increasing heights, every sequence of loop events emits them in strictly
+    increasing height order. -/
+theorem C12_height_order_stream (cfg : Cfg) (last : Nat) (ops : List Op)
+    (h : ((recvBlocks ops).map (·.height)).Pairwise (· < ·)) :
+    ((metasOf (run cfg last ops).emitted).map (·.height)).Pairwise (· < ·) := by
+  obtain ⟨X, hX, hs⟩ := accepted_sublist cfg ops (Run.init last)
+  have hacc : (run cfg last ops).accepted = X := by
+    simpa [run, Run.init] using hX
+  refine ((C12_height_order cfg last ops).1 ?_).1
+  rw [hacc]
+  exact List.Pairwise.sublist (List.Sublist.map _ hs) h
+
 /-- **Payload bound.** Every submission `take` hands out is non-empty, its blobs are exactly
     `try_into_payload` of its input (metadata list under the sequencer namespace, one list per
     rollup namespace), the size it accounts is the compressed size of exactly those blobs, and
